@@ -8,6 +8,7 @@ import (
 	"path/filepath"
 	"sort"
 	"strings"
+	"sync"
 )
 
 // CmdSelftest applies each must-fail patch (selftest/<id>/*.patch, seeded/<id>*/patch.diff) to a
@@ -17,6 +18,9 @@ func CmdSelftest(args []string) int {
 	if len(args) < 1 {
 		fmt.Println("usage: gvc selftest <Cxx>|all [patch...]")
 		return 2
+	}
+	if args[0] == "benign" {
+		return cmdBenign(args[1:])
 	}
 	ids := []string{args[0]}
 	if args[0] == "all" {
@@ -45,11 +49,30 @@ func CmdSelftest(args []string) int {
 			patches = append(p1, p2...)
 		}
 		sort.Strings(patches)
-		for _, p := range patches {
-			res, detail := selftestOne(id, p)
-			rows = append(rows, row{id, strings.TrimPrefix(p, VerifDir+"/"), res, detail})
-			fmt.Printf("%-5s %-60s %s %s\n", id, strings.TrimPrefix(p, VerifDir+"/"), res, detail)
-			if res != "DETECTED" {
+		// GVC_SELFTEST_J patched checks at a time (each is its own process reading /repo through an overlay)
+		j := 1
+		fmt.Sscan(os.Getenv("GVC_SELFTEST_J"), &j)
+		if j < 1 {
+			j = 1
+		}
+		out := make([]row, len(patches))
+		sem := make(chan struct{}, j)
+		var wg sync.WaitGroup
+		for i, p := range patches {
+			wg.Add(1)
+			sem <- struct{}{}
+			go func(i int, p string) {
+				defer wg.Done()
+				defer func() { <-sem }()
+				res, detail := selftestOne(id, p)
+				out[i] = row{id, strings.TrimPrefix(p, VerifDir+"/"), res, detail}
+			}(i, p)
+		}
+		wg.Wait()
+		for _, r := range out {
+			rows = append(rows, r)
+			fmt.Printf("%-5s %-60s %s %s\n", r.ID, r.Patch, r.Result, r.Detail)
+			if r.Result != "DETECTED" {
 				failed++
 			}
 		}
@@ -158,4 +181,69 @@ func selftestOne(id, patch string) (string, string) {
 		return "DETECTED", strings.Join(obls, ",")
 	}
 	return "MISSED", tail(strings.TrimSpace(s), 200)
+}
+
+// cmdBenign: the other half of the self-test. Every change under /verif/benign/Cnn-k is a maintenance
+// edit after which the property holds exactly as before (renamed locals, a few lines extracted into a
+// helper, two independent statements swapped, log / error text, an equivalent expression). The check of
+// that property must stay quiet on each: an alarm here is a false alarm.
+func cmdBenign(args []string) int {
+	pats, _ := filepath.Glob(filepath.Join(VerifDir, "benign", "C*", "patch.diff"))
+	sort.Strings(pats)
+	if selftestGoCache == "" {
+		c, drop := scratchGoCache()
+		selftestGoCache = c
+		defer drop()
+	}
+	j := 1
+	fmt.Sscan(os.Getenv("GVC_SELFTEST_J"), &j)
+	if j < 1 {
+		j = 1
+	}
+	type row struct{ ID, Patch, Result, Detail string }
+	out := make([]row, len(pats))
+	sem := make(chan struct{}, j)
+	var wg sync.WaitGroup
+	for i, p := range pats {
+		id := strings.SplitN(filepath.Base(filepath.Dir(p)), "-", 2)[0]
+		if len(args) > 0 && args[0] != id {
+			continue
+		}
+		wg.Add(1)
+		sem <- struct{}{}
+		go func(i int, id, p string) {
+			defer wg.Done()
+			defer func() { <-sem }()
+			res, detail := selftestOne(id, p)
+			switch res {
+			case "MISSED":
+				res = "QUIET"
+			case "DETECTED":
+				res = "ALARM"
+			}
+			out[i] = row{id, strings.TrimPrefix(p, VerifDir+"/"), res, detail}
+		}(i, id, p)
+	}
+	wg.Wait()
+	alarms := 0
+	for _, r := range out {
+		if r.ID == "" {
+			continue
+		}
+		d := r.Detail
+		if r.Result == "QUIET" {
+			d = ""
+		}
+		fmt.Printf("%-5s %-40s %s %s\n", r.ID, r.Patch, r.Result, d)
+		if r.Result != "QUIET" {
+			alarms++
+		}
+	}
+	b, _ := json.MarshalIndent(out, "", " ")
+	os.WriteFile(filepath.Join(VerifDir, "out", "benign-last.json"), b, 0o644)
+	if alarms > 0 {
+		fmt.Printf("benign: %d change(s) raised an alarm\n", alarms)
+		return 1
+	}
+	return 0
 }
